@@ -269,6 +269,31 @@ def nested_region_cases(tier, rng):
     return out
 
 
+def has_toplevel_nossr(v):
+    """structural half of the matcher of known finding F15"""
+    def top(vs):
+        out = []
+        for x in vs:
+            if x[0] in ("frag", "comp", "nohydrate"):
+                out += top(x[1])
+            else:
+                out.append(x)
+        return out
+    k = v[0]
+    kids = []
+    if k == "el":
+        kids = v[3]
+    elif k == "dyn":
+        kids = v[2] + v[3]
+    elif k in ("frag", "comp", "nohydrate", "nossr"):
+        kids = v[1]
+    elif k in ("show", "list"):
+        kids = v[2] if k == "show" else v[3]
+        if any(c[0] == "nossr" for c in top(kids)):
+            return True
+    return any(has_toplevel_nossr(c) for c in kids)
+
+
 def gen(tier, rng):
     cases = nested_region_cases(tier, rng)
     n = 700 if tier == "quick" else 8000
@@ -310,7 +335,9 @@ def main(argv):
     real = []
     for o in orfail:
         v = cases[o["case"]][1]
-        if "F9-toplevel-dynamic-child" in findings and has_toplevel_dynamic_child(v):
+        if "F15-nossr-marker-in-snapshot" in findings and has_toplevel_nossr(v) and "<no-ssr" in o.get("dom", ""):
+            chk.known(findings["F15-nossr-marker-in-snapshot"], "e.g. " + o["scenario"][:200])
+        elif "F9-toplevel-dynamic-child" in findings and has_toplevel_dynamic_child(v):
             chk.known(findings["F9-toplevel-dynamic-child"], "e.g. " + o["scenario"][:200])
         else:
             real.append(o)
